@@ -336,6 +336,10 @@ func runC12(cfg Config) {
 					}
 					return // a read that did not overlap the write may miss
 				}
+				if c == nil {
+					errs <- "a read overlapping the write returned neither a chunk nor an error"
+					return
+				}
 				b, _ := c.Data()
 				if !bytes.Equal(b, data) {
 					errs <- "a read overlapping the write returned other bytes"
